@@ -336,7 +336,8 @@ func destroyRingRotatedKeyByIndex(ring api.MutableKeyRing, index int) error {
 		rotatedActiveKeys = append(rotatedActiveKeys, i)
 	}
 
-	if index-1 > len(rotatedActiveKeys) {
+	// rotated keys are listed with indexes 2..len(rotatedActiveKeys)+1, 1 is the current key
+	if index < 2 || index-2 >= len(rotatedActiveKeys) {
 		log.WithField("index", index).Debug("no key matched to index")
 		return ErrInvalidIndex
 	}
